@@ -98,30 +98,291 @@ func (ex *Exec) ghostOf(c *Cell, sort *Sort) *Cell {
 type emission struct {
 	guard *Term
 	mk    func(rest *Term) *Term
+	reset bool // Hasher.Reset: everything emitted before is discarded when the guard holds
 }
 
 func (fr *Frame) emit(v Val, mk func(rest *Term) *Term) bool {
+	return fr.emitE(v, emission{guard: fr.cur, mk: mk})
+}
+
+func (fr *Frame) emitE(v Val, e emission) bool {
 	initStream()
 	p, ok := v.(PtrV)
 	if !ok || len(p.Path) != 0 {
 		return false
 	}
+	if fr.ex.encCells == nil {
+		fr.ex.encCells = map[*Cell]bool{}
+	}
+	fr.ex.encCells[p.Cell] = true
+	if ctx := fr.curSeg(); ctx != nil {
+		if e.reset {
+			ctx.bad = "Hasher.Reset inside a summarised loop"
+		}
+		ctx.logs[p.Cell] = append(ctx.logs[p.Cell], e)
+		return true
+	}
 	if fr.ex.encLog == nil {
 		fr.ex.encLog = map[*Cell][]emission{}
 	}
-	fr.ex.encLog[p.Cell] = append(fr.ex.encLog[p.Cell], emission{fr.cur, mk})
+	fr.ex.encLog[p.Cell] = append(fr.ex.encLog[p.Cell], e)
 	return true
 }
 
-// streamOf folds the emission log of an encoder cell into a Stream term ending in tail.
-func (ex *Exec) streamOf(c *Cell, tail *Term) *Term {
-	log := ex.encLog[c]
+// foldLog folds an emission log into a Stream term ending in tail.  A reset discards the
+// items logged before it (on the paths where its guard holds).
+func foldLog(log []emission, tail *Term) *Term {
 	s := tail
+	kill := TFalse
 	for i := len(log) - 1; i >= 0; i-- {
-		s = Ite(log[i].guard, log[i].mk(s), s)
+		g := dropExitConds(log[i].guard)
+		if log[i].reset {
+			kill = Or(kill, g)
+			continue
+		}
+		s = Ite(And(g, Not(kill)), log[i].mk(s), s)
 	}
 	return s
 }
+
+// exitedIdx: havoced range indices of summarised loops.  After such a loop (a range loop
+// without break) its exit condition holds by construction, so conjuncts of later guards that
+// mention the index are dropped: they are facts, not branch conditions.
+var exitedIdx = map[*Term]bool{}
+
+func dropExitConds(g *Term) *Term {
+	if len(exitedIdx) == 0 || g.IsTrue() {
+		return g
+	}
+	var keep []*Term
+	changed := false
+	for _, c := range conjuncts(g) {
+		hit := false
+		collect([]*Term{c}, func(t *Term) {
+			if exitedIdx[t] {
+				hit = true
+			}
+		})
+		if hit {
+			changed = true
+			continue
+		}
+		keep = append(keep, c)
+	}
+	if !changed {
+		return g
+	}
+	return And(keep...)
+}
+
+// streamOf folds the emission log of an encoder cell into a Stream term ending in tail.
+func (ex *Exec) streamOf(c *Cell, tail *Term) *Term { return foldLog(ex.encLog[c], tail) }
+
+// ---- loops in encoders: segment items ----
+//
+// A loop whose body writes to an Encoder is summarised as one item
+//     seg<site>(n, lam j. B(j), rest)
+// where B(j) is the (nil-terminated) stream the body emits in iteration j.  The body is executed
+// once from the havoced loop head; the summary is only made when B depends on no havoced state
+// other than the range index (otherwise the stream becomes an unknown item and nothing about it
+// can be proved).
+
+type segCtx struct {
+	lp     *Loop
+	fr     *Frame
+	parent *segCtx
+	guard  *Term
+	ri     *Term // havoced range index (value before the increment)
+	n      *Term
+	havoc  []*Term
+	logs   map[*Cell][]emission
+	mark   map[*Cell]int
+	bad    string
+	backs  int
+}
+
+// the segment index only ever stands for 0 <= j < n <= maxLen (every use of a segment body is
+// guarded by that range), so it carries the range for the simplifier
+var lamVar = WithRange(Sym("$seg!j", SInt), big.NewInt(0), new(big.Int).Lsh(big.NewInt(1), 40))
+
+var stSegCtors = map[string]*Ctor{}
+
+func stSeg(site string) *Ctor {
+	initStream()
+	name := "st.seg:" + site
+	if c, ok := stSegCtors[name]; ok {
+		return c
+	}
+	c := &Ctor{Name: name, Sort: streamS, Fields: []CField{{name + ".n", SInt}, {name + ".body", ArraySort(SInt, streamS)}, {name + ".rest", streamS}}}
+	stSegCtors[name] = c
+	streamS.Ctors = append(streamS.Ctors, c)
+	return c
+}
+
+func isSegCtor(c *Ctor) bool { return strings.HasPrefix(c.Name, "st.seg:") }
+
+// curSeg: the innermost summarised loop the current block of this frame (or of a caller) is in.
+func (fr *Frame) curSeg() *segCtx {
+	var best *segCtx
+	for lp, ctx := range fr.segs {
+		if fr.curBlock != nil && lp.Blocks[fr.curBlock] && fr.curBlock != lp.Header {
+			if best == nil || len(lp.Blocks) < len(best.lp.Blocks) {
+				best = ctx
+			}
+		}
+	}
+	if best != nil {
+		return best
+	}
+	return fr.inheritSeg
+}
+
+func (fr *Frame) logOf(ctx *segCtx, c *Cell) []emission {
+	if ctx != nil {
+		return ctx.logs[c]
+	}
+	return fr.ex.encLog[c]
+}
+
+// segEnter is called when a loop head is entered (after the havoc).
+func (fr *Frame) segEnter(lp *Loop, guard *Term, havoc []*Term) {
+	if !fr.ex.wireActive() {
+		return
+	}
+	var outer *segCtx
+	// the context outside this loop
+	save := fr.curBlock
+	fr.curBlock = nil
+	outer = fr.inheritSeg
+	for l2, ctx := range fr.segs {
+		if l2 != lp && l2.Blocks[lp.Header] && lp.Header != l2.Header {
+			if outer == nil || outer == fr.inheritSeg || len(l2.Blocks) < len(outer.lp.Blocks) {
+				outer = ctx
+			}
+		}
+	}
+	fr.curBlock = save
+	ctx := &segCtx{lp: lp, fr: fr, parent: outer, guard: guard, havoc: havoc, logs: map[*Cell][]emission{}, mark: map[*Cell]int{}}
+	for _, p := range fr.headerPhis(lp) {
+		if p.Comment == "rangeindex" {
+			if tv, ok := fr.vals[p].(TV); ok {
+				ctx.ri = tv.T
+				ctx.n = fr.rangeLen(lp, p)
+			}
+		}
+	}
+	for c := range fr.ex.encCells {
+		ctx.mark[c] = len(fr.logOf(outer, c))
+	}
+	if fr.segs == nil {
+		fr.segs = map[*Loop]*segCtx{}
+	}
+	fr.segs[lp] = ctx
+}
+
+// segClose is called at a back edge: the body's emissions become one segment item.
+func (fr *Frame) segClose(lp *Loop) {
+	ctx := fr.segs[lp]
+	if ctx == nil {
+		return
+	}
+	ctx.backs++
+	if len(ctx.logs) == 0 {
+		return
+	}
+
+	ex := fr.ex
+	site := fmt.Sprintf("%s#loop%d", shortName(fr.fn.String()), lp.Ord)
+	for c, log := range ctx.logs {
+		why := ctx.bad
+		var item func(rest *Term) *Term
+		if why == "" && ctx.backs > 1 {
+			why = "several back edges"
+		}
+		if why == "" && (ctx.ri == nil || ctx.n == nil) {
+			why = "not a range loop over a slice"
+		}
+		if why == "" {
+			// guards relative to the body's entry (which holds for every index 0 <= j < n)
+			var entryG *Term
+			for _, sb := range lp.Header.Succs {
+				if lp.Blocks[sb] && sb != lp.Header {
+					entryG = fr.guard[sb]
+				}
+			}
+			rel := make([]emission, len(log))
+			copy(rel, log)
+			if entryG != nil {
+				drop := map[*Term]bool{}
+				for _, c := range conjuncts(entryG) {
+					drop[c] = true
+				}
+				for i := range rel {
+					var keep []*Term
+					for _, c := range conjuncts(rel[i].guard) {
+						if !drop[c] {
+							keep = append(keep, c)
+						}
+					}
+					rel[i].guard = And(keep...)
+				}
+			}
+			body := foldLog(rel, MkCtor(stNil))
+			body = Subst(body, map[*Term]*Term{ctx.ri: Sub(lamVar, IntC(1))})
+			// the body must be a function of the index alone
+			hav := map[*Term]bool{}
+			for _, h := range ctx.havoc {
+				hav[h] = true
+			}
+			collect([]*Term{body}, func(t *Term) {
+				if hav[t] && why == "" {
+					why = "the body's output depends on loop-carried state (" + t.Name + ")"
+				}
+			})
+			if why == "" {
+				cst := stSeg(site)
+				n := ctx.n
+				lam := Lam(lamVar, body)
+				if os.Getenv("GOVC_WIREDEBUG") != "" {
+					str := body.String()
+					if len(str) > 1500 {
+						str = str[:1500]
+					}
+					fmt.Fprintf(os.Stderr, "SEG %s body: %s\n", site, str)
+				}
+				item = func(rest *Term) *Term { return MkCtor(cst, n, lam, rest) }
+			}
+		}
+		if why != "" {
+			ex.oos("%s: encoder loop#%d not summarised: %s", shortName(fr.fn.String()), lp.Ord, why)
+			item = func(rest *Term) *Term { return Fresh("unknown-stream", streamS) }
+		}
+		e := emission{guard: ctx.guard, mk: item}
+		at := ctx.mark[c]
+		if ctx.parent != nil {
+			l := ctx.parent.logs[c]
+			if at > len(l) {
+				at = len(l)
+			}
+			ctx.parent.logs[c] = append(append(append([]emission{}, l[:at]...), e), l[at:]...)
+		} else {
+			l := ex.encLog[c]
+			if at > len(l) {
+				at = len(l)
+			}
+			if ex.encLog == nil {
+				ex.encLog = map[*Cell][]emission{}
+			}
+			ex.encLog[c] = append(append(append([]emission{}, l[:at]...), e), l[at:]...)
+		}
+	}
+	ctx.logs = map[*Cell][]emission{}
+	if ctx.ri != nil {
+		exitedIdx[ctx.ri] = true
+	}
+}
+
+func (ex *Exec) wireActive() bool { return !ex.kernelMode }
 
 func (fr *Frame) decState(v Val) (*Cell, *Term, bool) {
 	initStream()
@@ -346,6 +607,9 @@ func (fr *Frame) wireNative(f *ssa.Function, args []Val, in ssa.Instruction) (Va
 		if t, ok := fr.term(args[1]); ok && isSliceSort(t.Sort) {
 			key := sliceItemKey(f, oname)
 			c := stObj("slice", key, t.Sort)
+			if vt := valType(args[1]); vt != nil {
+				stObjTypes[c.Name] = vt
+			}
 			if fr.emit(args[0], func(r *Term) *Term { return MkCtor(c, t, r) }) {
 				fr.ex.note("slice codec pair %s is inverse given the element codec (meta-lemma about EncodeSlice/DecodeSlice)", key)
 				return TupleV{}, true
@@ -355,6 +619,9 @@ func (fr *Frame) wireNative(f *ssa.Function, args []Val, in ssa.Instruction) (Va
 		if t, ok := fr.term(args[1]); ok && t.Sort.Kind == KDT && len(t.Sort.Ctors) == 2 {
 			key := sliceItemKey(f, oname)
 			c := stObj("ptr", key, t.Sort)
+			if vt := valType(args[1]); vt != nil {
+				stObjTypes[c.Name] = vt
+			}
 			if fr.emit(args[0], func(r *Term) *Term { return MkCtor(c, t, r) }) {
 				return TupleV{}, true
 			}
@@ -396,13 +663,14 @@ func (fr *Frame) wireNative(f *ssa.Function, args []Val, in ssa.Instruction) (Va
 			return nil, false
 		}
 		c := stObj("obj", codecKey(elem), s)
+		stObjTypes[c.Name] = elem
 		if wireSkip[codecKey(elem)] {
 			fr.ex.note("codec pair of %s is assumed inverse (outside the wire engine)", codecKey(elem))
 		}
 		if f.Name() == "EncodeTo" && isEncoderPtr(f.Signature.Params().At(0).Type()) {
 			if t, ok := fr.valueOfRecv(args[0], elem); ok && t.Sort == s {
 				if fr.emit(args[1], func(r *Term) *Term { return MkCtor(c, t, r) }) {
-					fr.ex.wireDeps[codecKey(elem)] = true
+					fr.ex.wireDep(codecKey(elem))
 					return TupleV{}, true
 				}
 			}
@@ -416,7 +684,7 @@ func (fr *Frame) wireNative(f *ssa.Function, args []Val, in ssa.Instruction) (Va
 				if old != nil && conv.Sort == old.Sort {
 					_, good := fr.readItem(g, d, c, IntC(1))
 					fr.store(dst, Ite(good, conv, old))
-					fr.ex.wireDeps[codecKey(elem)] = true
+					fr.ex.wireDep(codecKey(elem))
 					return TupleV{}, true
 				}
 			}
@@ -515,3 +783,10 @@ func wireEq(t types.Type, a, b *Term, depth int) *Term {
 }
 
 var _ = big.NewInt
+
+func (ex *Exec) wireDep(k string) {
+	if ex.wireDeps == nil {
+		ex.wireDeps = map[string]bool{}
+	}
+	ex.wireDeps[k] = true
+}
